@@ -45,6 +45,19 @@ CLAIMS = {
         "seeded 5x5..6x6 matrices under option masks, non-binary inputs. The cross-check through Camion signing rests on Camion's theorem, "
         "which is tested (C09), not proved.",
    technique="Lean 4 soundness+completeness proof of the signing-search oracle + exhaustive small-domain correspondence", design="5/C02"),
+ "C10": dict(
+   text="Proof: the transformations (transpose, permutation, line negation, insertion of zero / +-unit / +-duplicate lines, submatrix, GF(2)/"
+        "GF(3) pivot) are Lean functions (Cmr/Rel.lean) and the relation table the judge enforces is justified by theorems for all shapes: "
+        "isTU is invariant under every table entry 'iff' (including the GF(3) pivot on ternary matrices) and monotone under submatrices; the "
+        "same for the regularity oracle (via signability), for balancedness and for the series-parallel reduction oracle (via C08's "
+        "confluence); transposition duality graphic/cographic, network/conetwork; 1-sum iff and 2-sum closure of TU (from C12); algebra of "
+        "the table (composition of steps). Not proved, classical matroid theory trusted: pivot invariance for regular/graphic/network/SP, "
+        "line insertion for graphic/network, 2-sum closure for classes other than TU, delta/Y-sum closure of regularity (Seymour). Tie: instances "
+        "far beyond oracle size (network matrices of random digraphs, R10/R12, 1-/2-sums, corrupted entries; up to ~100 lines quick, ~300 "
+        "thorough) with seeded composite transformations applied through CMRchrmatTranspose/Permute/Slice/BinaryPivot/TernaryPivot: the "
+        "transformed matrix must equal the model's and all ten recognizers' verdicts on M and g(M) must satisfy the table; k-sums composed by "
+        "the library are compared with the composition model and the verdicts of operands and sum related.",
+   technique="Lean 4 invariance/closure theorems for the oracles under the transformation group + metamorphic relation check of all recognizers on large structured instances", design="5/C10"),
  "C11": dict(
    text="Partial. Proof: the scratch allocator of env.c is transcribed (alloc/free/usage for both header sizes) with an invariant preserved by "
         "every step; alloc followed by free restores the observable state exactly; every well-bracketed alloc/free sequence restores it "
